@@ -562,7 +562,7 @@ func c18Spaces(c *fw.Ctx) {
 			}
 		})
 
-	c.Space("tamper", "messages {"+c18MsgNames()+"} × Compress × algorithms, fixed window 2023..2036, split in chunks of "+fmt.Sprint(c18ChunkW)+" signed octets: single-bit flips of the original message and SIG RDATA octets (bound in assumptions), every truncation length ≥ 12, header-count faults; SIG.Verify with the receiver's SIG must return an error and never panic; non-trivial: the untampered buffer verified and ≥ 1 fault was applied", true,
+	c.Space("tamper", "messages {"+c18MsgNames()+"} × Compress × algorithms, fixed window 2023..2036, split in chunks of "+fmt.Sprint(c18ChunkW)+" signed octets: single-bit flips of the original message and SIG RDATA octets (bound in assumptions), every truncation length ≥ 12, header-count faults, every octet of the signer-name region set to {00,3f,40,80,c0,ff}; and — with the no-panic clause as the only oracle, since RFC 2931 does not sign them — every bit of the SIG record's own header octets and its RDLENGTH set to every value 0..true+4 and the extremes; SIG.Verify with the receiver's SIG must return an error and never panic; non-trivial: the untampered buffer verified and ≥ 1 fault was applied", true,
 		func(emit func(func(*fw.R))) {
 			for _, ms := range c18Msgs {
 				for _, compress := range []bool{false, true} {
@@ -728,7 +728,7 @@ func c18Tamper(r *fw.R, ms c18Msg, compress bool, a c18Alg, chunk, chunks int) {
 			r.Fail("verify/panic-"+kind, "%s: %s: SIG.Verify panicked: %v; untampered buffer %s", id, describe(), pan, c18Hex(s.out))
 			return
 		}
-		if err == nil {
+		if err == nil && key != "" {
 			r.Fail(key, "%s: %s: SIG.Verify = nil; untampered buffer %s", id, describe(), c18Hex(s.out))
 		}
 		if kind == "truncated" {
@@ -762,7 +762,7 @@ func c18Tamper(r *fw.R, ms c18Msg, compress bool, a c18Alg, chunk, chunks int) {
 		err, pan = c18Verify(ws, k.rr, b)
 		if pan != nil {
 			r.Fail("verify/panic-"+kind, "%s: %s, SIG unpacked from the tampered buffer: SIG.Verify panicked: %v; untampered buffer %s", id, describe(), pan, c18Hex(s.out))
-		} else if err == nil {
+		} else if err == nil && key != "" {
 			r.Fail(key+"/unpacked-sig", "%s: %s, SIG unpacked from the tampered buffer: SIG.Verify = nil; untampered buffer %s", id, describe(), c18Hex(s.out))
 		}
 	}
@@ -817,6 +817,58 @@ func c18Tamper(r *fw.R, ms c18Msg, compress bool, a c18Alg, chunk, chunks int) {
 				})
 				binary.BigEndian.PutUint16(buf[4+2*f:], v)
 			}
+		}
+	}
+	if chunk == 0 {
+		// The SIG record's own NAME / TYPE / CLASS / TTL / RDLENGTH octets are not part of what SIG(0) signs (RFC 2931:
+		// the SIG RDATA and the message), so a buffer altered there may still verify; but it is malformed input of at
+		// least header size and Verify has to return — no panic — whatever they say. Every bit of those 11 octets, and
+		// the RDLENGTH set to every value up to a few beyond the true one and to the usual extremes (a length smaller
+		// than the fixed SIG fields plus signer name is where a verifier that trusts it slices backwards).
+		for off := msgLen; off < msgLen+11 && off < len(buf); off++ {
+			for bit := 0; bit < 8; bit++ {
+				buf[off] ^= 1 << bit
+				off, bit := off, bit
+				judge("sig-header", "", buf, func() string {
+					return fmt.Sprintf("bit %d of octet %d (header of the SIG record, which starts at %d) flipped", bit, off, msgLen)
+				})
+				buf[off] ^= 1 << bit
+			}
+		}
+		if rdStart-2 >= msgLen && rdStart <= len(buf) {
+			v := binary.BigEndian.Uint16(buf[rdStart-2:])
+			vals := []uint16{0x7fff, 0x8000, 0xfffe, 0xffff, uint16(len(buf)), uint16(len(buf) - rdStart + 1), uint16(len(buf) - rdStart - 1)}
+			for nv := 0; nv <= int(v)+4 && nv <= 0xffff; nv++ {
+				vals = append(vals, uint16(nv))
+			}
+			for _, nv := range vals {
+				if nv == v {
+					continue
+				}
+				binary.BigEndian.PutUint16(buf[rdStart-2:], nv)
+				nv := nv
+				judge("sig-rdlength", "", buf, func() string { return fmt.Sprintf("RDLENGTH of the SIG record set to %d (was %d)", nv, v) })
+			}
+			binary.BigEndian.PutUint16(buf[rdStart-2:], v)
+		}
+		// structural octets of the SIG RDATA (the signer name's length octets and what follows them) set to values a
+		// single bit flip does not reach: pointer, over-long label, end of name
+		for off := rdStart + 18; off < s.loc.SigOff+2 && off < len(buf); off++ {
+			old := buf[off]
+			for _, nv := range []byte{0x00, 0x3f, 0x40, 0x80, 0xc0, 0xff} {
+				if nv == old {
+					continue
+				}
+				buf[off] = nv
+				off, nv := off, nv
+				judge("signer-octet", "verify/signer-octet-accepted", buf, func() string {
+					return fmt.Sprintf("octet %d (signer name region of the SIG RDATA, which starts at %d) set to %#02x (was %#02x)", off, rdStart, nv, old)
+				})
+			}
+			buf[off] = old
+		}
+		if !bytes.Equal(buf, s.out) {
+			r.Fail("internal/restore", "%s: malformed-input sweep did not restore the buffer", id)
 		}
 	}
 	if faults > 0 {
